@@ -312,3 +312,42 @@ class F10NonFiniteAllocationRatio(ReproBase):
 
     def test_minus_infinity(self):
         self.assertEqual(400, self._put('-Infinity').status_int)
+
+
+class F11EmptyWriteUsesRereadGeneration(ReproBase):
+    """C06: in the empty-allocations branch the Allocation objects handed to
+    the write carry the Consumer re-read by get_all_by_consumer_id(), not the
+    Consumer whose generation ensure_consumer() compared with the request.
+    Schedule: [B compares generation g] [A writes, generation g+1]
+    [B re-reads consumer at g+1, clears allocations, CAS on g+1 succeeds].
+    B carried generation g and must get 409.
+    """
+
+    def test_stale_clear_gets_409(self):
+        cn1 = self._create_provider('cn1')
+        tb.add_inventory(cn1, orc.VCPU, 8)
+        c = uuids.clearer
+        r = self.call('PUT', '/allocations/%s' % c,
+                      self.body({cn1.uuid: {'resources': {'VCPU': 1}}}))
+        self.assertEqual(204, r.status_int)
+        gen = consumer_obj.Consumer.get_by_uuid(self.context, c).generation
+        body_a = self.body({cn1.uuid: {'resources': {'VCPU': 3}}})
+        body_a['consumer_generation'] = gen
+        body_b = self.body({})
+        body_b['consumer_generation'] = gen
+        real = alloc_obj.get_all_by_consumer_id
+        state = {'done': False}
+        outer = self
+
+        def racing(context, consumer_id):
+            if not state['done']:
+                state['done'] = True
+                ra = outer.call('PUT', '/allocations/%s' % c, body_a)
+                outer.assertEqual(204, ra.status_int)
+            return real(context, consumer_id)
+
+        with mock.patch.object(alloc_obj, 'get_all_by_consumer_id', racing):
+            rb = self.call('PUT', '/allocations/%s' % c, body_b)
+        self.assertEqual(409, rb.status_int)
+        allocs = real(self.context, c)
+        self.assertEqual([3], [a.used for a in allocs])
